@@ -70,7 +70,7 @@ Definition nostop (w : worker) : Prop :=
 Definition stopped (w : worker) (m : nat) : Prop :=
   exists s0, seen w = s0 ++ [m] /\ halt m = true /\ (forall i, In i s0 -> halt i = false) /\
              (forall i, In i (aband w) -> m < i) /\ halted_phase (ph w) = true /\
-             (ph w = Dead -> panics m = true) /\ (ph w = Found -> panics m = false).
+             (ph w = Dead -> panics m = true) /\ (panics m = true -> ph w = Dead).
 
 Record WInv (w : worker) : Prop := {
   W_hist : owned w = chunks_of (pulls w);
@@ -184,12 +184,13 @@ Proof.
     { destruct Ws as [(_ & _ & Hp & _)|Hm]; auto. exfalso; apply Hp; reflexivity. }
     destruct Hst as (m & s0 & Hs1 & Hs2 & Hs3 & Hs4 & _ & _ & Hs7). cbn [seen aband ph] in *.
     assert (Hst' : stopped (mkW cs Done sn ab pl) m).
-    { exists s0. cbn [seen aband ph]. repeat split; auto; discriminate. }
+    { exists s0. cbn [seen aband ph]. repeat split; auto; try discriminate.
+      intros Hp. specialize (Hs7 Hp). discriminate. }
     split; [winv|fin].
     + right. exists m. exact Hst'.
     + intros _. right. exists m. exact Hst'.
-    + intros m' (s1 & E1 & E2 & E3 & E4 & _). exists s1. cbn [seen aband ph] in *.
-      repeat split; auto; discriminate.
+    + intros m' (s1 & E1 & E2 & E3 & E4 & _ & _ & E7). exists s1. cbn [seen aband ph] in *.
+      repeat split; auto; try discriminate. intros Hp. specialize (E7 Hp). discriminate.
   - (* Done *)
     injection H as <- <- <- <-. rewrite ?Nat.sub_diag. cbn [seq]. rewrite ?app_nil_r.
     split; [constructor; auto|fin].
@@ -323,6 +324,17 @@ Proof.
   intros G Hnp w Hw Hd. pose proof (G_w G) as Gw. rewrite Forall_forall in Gw.
   destruct (W_stop (Gw w Hw)) as [(_ & _ & _ & H)|(m & s0 & _ & _ & _ & _ & _ & H & _)]; [congruence|].
   rewrite Hnp in H. specialize (H Hd). discriminate.
+Qed.
+
+(** a worker that processed a panicking position is [Dead]: the panic is never swallowed *)
+Lemma panic_dead s : GInv s -> forall w i, In w (ws s) -> In i (seen w) -> panics i = true -> ph w = Dead.
+Proof.
+  intros G w i Hw Hi Hp. pose proof (G_w G) as Gw. rewrite Forall_forall in Gw.
+  destruct (W_stop (Gw w Hw)) as [(H1 & _)|(m & s0 & E1 & E2 & E3 & _ & _ & _ & E7)].
+  - specialize (H1 i Hi). unfold halt in H1. rewrite Hp in H1. discriminate.
+  - rewrite E1 in Hi. apply in_app_or in Hi. destruct Hi as [Hi|[<-|[]]].
+    + specialize (E3 i Hi). unfold halt in E3. rewrite Hp in E3. discriminate.
+    + apply E7. exact Hp.
 Qed.
 
 Theorem final_outcome s : GInv s -> all_done s -> (forall i, panics i = false) -> Outcome halt (ws s).
